@@ -200,7 +200,12 @@ func (x *Exec) evalBuiltin(name string, n *ast.CallExpr, st *State, env *Env) (V
 		case *types.Map:
 			return Val{T: x.c.zero(ty), Ty: ty}, true
 		case *types.Chan:
-			panic(unsupported("make(chan)"))
+			for _, a := range n.Args[1:] {
+				x.eval(a, st, env)
+			}
+			v := Val{T: x.c.freshConst("chan", "Int"), Ty: ty}
+			x.initHandle(st, v, "made")
+			return v, true
 		}
 	case "append":
 		return x.evalAppend(n, st, env), true
